@@ -75,6 +75,17 @@ def null_stripped(ctx, fi, paths, rule="C08.R4"):
         else:
             ok, why = False, "unrecognised region data %s" % N.show(data)
         ctx.ob(rule, fi, ok, "NullStripped hands the inner construct the region minus bytes that compared equal to the pad: %s" % why, key="stripped bytes are pad: %s" % why)
+    # completeness: with a multi-byte pad the data handed on is always the slice up to the end index the strip loop computed
+    # (a path that hands the whole region on without having looked at its tail would leave the padding in)
+    multi = [p for p in paths if p.returns and N.mk_cmp("!=", unit, N.const(1)) in conjuncts(p)]
+    okc = bool(multi)
+    for p in multi:
+        new = [e for e in p.events if e.kind == "NEWSTREAM"]
+        lp = [e for e in p.events if e.kind == "LOOP"]
+        d = new[0]["args"][0] if new else None
+        okc = okc and bool(lp) and d is not None and d[0] == "sub" and d[2][0] == "slice"
+    ctx.ob(rule, fi, okc, "with a pad of several bytes NullStripped always hands on data[:end], end being what the strip loop left (never the unexamined region)", key="strip applied")
+    n += 1
     # loop-carried: in the iteration assumption of every non-final iteration the same guard holds (the loop condition is that guard)
     loops = uniq_events(paths, "LOOP")
     for lp in loops:
